@@ -1,9 +1,23 @@
 (* Proofs about the model Conf/Conf.v (C17). *)
 From Coq Require Import List NArith ZArith Bool Lia ZifyBool ZifyNat ZifyN.
-From TarsV Require Import Base.Hex Gen.Consts Conf.Conf.
+From TarsV Require Import Base.Hex Gen.Consts Conf.Conf Conf.ConfSpec.
 Import ListNotations.
 Open Scope bool_scope.
 Open Scope N_scope.
+
+Lemma frev_rev {A} (l : list A) : frev l = rev l.
+Proof. unfold frev. symmetry. apply rev_alt. Qed.
+
+Lemma key_eqb_eq a b : key_eqb a b = true <-> a = b.
+Proof. apply list_eqb_eq. apply bytes_eqb_eq. Qed.
+Lemma key_eqb_refl a : key_eqb a a = true.
+Proof. apply key_eqb_eq. reflexivity. Qed.
+Lemma key_eqb_neq a b : a <> b -> key_eqb a b = false.
+Proof. intros H. destruct (key_eqb a b) eqn:E; [apply key_eqb_eq in E; contradiction|reflexivity]. Qed.
+Lemma bytes_eqb_refl a : bytes_eqb a a = true.
+Proof. apply bytes_eqb_eq. reflexivity. Qed.
+Lemma bytes_eqb_neq a b : a <> b -> bytes_eqb a b = false.
+Proof. intros H. destruct (bytes_eqb a b) eqn:E; [apply bytes_eqb_eq in E; contradiction|reflexivity]. Qed.
 
 (* ------------------------------------------------------------------------------------------- *)
 (* the loop of InitFromBytes on a balanced token list: no index panic, no "xml end not match" *)
@@ -14,7 +28,7 @@ Proof.
   induction ts as [|t ts IH]; intros s names Hb.
   - destruct names; cbn; left; eexists; reflexivity.
   - destruct t as [n|n|t].
-    + cbn in Hb. specialize (IH).
+    + cbn in Hb.
       destruct names as [|top below]; cbn [app conf_loop].
       * destruct (lookup s [n; root_name]); apply (IH _ [n]); exact Hb.
       * destruct (lookup s (n :: top :: below ++ [root_name])); apply (IH _ (n :: top :: below)); exact Hb.
@@ -33,4 +47,448 @@ Proof.
   destruct (raw_status bs); try discriminate.
   destruct (balanced (raw_tokens bs)) eqn:B; [|discriminate].
   destruct (conf_loop_balanced (raw_tokens bs) init_store [] B) as [[r H]|H]; cbn [app] in H; rewrite H; discriminate.
+Qed.
+
+(* the getters: strings.Split never returns an empty slice, so pathVec[len(pathVec)-1] is in range *)
+Lemma split_on_aux_nonempty sep : forall s cur, split_on_aux sep cur s <> [].
+Proof. induction s as [|c r IH]; intros cur; cbn; [discriminate|]. destruct (c =? sep); [discriminate|apply IH]. Qed.
+
+Lemma analysis_path_ok p : exists v, analysis_path p = Ok v.
+Proof.
+  unfold analysis_path. rewrite frev_rev.
+  destruct (rev (split_on c_slash p)) eqn:E.
+  - exfalso. apply (f_equal (@rev _)) in E. rewrite rev_involutive in E. cbn in E.
+    unfold split_on in E. exact (split_on_aux_nonempty _ _ _ E).
+  - eexists; reflexivity.
+Qed.
+
+Lemma with_elem_ok {A} s p (f : option (key * info) -> A) : exists e, with_elem s p f = Ok (f e).
+Proof.
+  unfold with_elem, get_elem. destruct (analysis_path_ok p) as [v ->]. eexists; reflexivity.
+Qed.
+
+Theorem getters_no_panic : forall s p,
+  (forall d, exists v, get_string_def s p d = Ok v) /\ (forall d, exists v, get_int_def s p d = Ok v) /\
+  (forall d, exists v, get_int32_def s p d = Ok v) /\ (forall d, exists v, get_bool_def s p d = Ok v) /\
+  (exists v, get_domain s p = Ok v) /\ (exists v, get_domain_key s p = Ok v) /\
+  (exists v, get_domain_line s p = Ok v) /\ (exists v, get_map s p = Ok v).
+Proof.
+  intros s p. unfold get_string_def, get_int_def, get_int32_def, get_bool_def, typed, get_domain, get_domain_key, get_domain_line, get_map.
+  repeat split; intros;
+    match goal with |- exists v, with_elem ?s ?p ?f = Ok v => destruct (with_elem_ok s p f) as [e ->]; eexists; reflexivity end.
+Qed.
+
+(* ------------------------------------------------------------------------------------------- *)
+(* the loop is the fold of the document's events *)
+Lemma do_segments_events : forall segs s stk s',
+  do_segments s stk segs = Some s' ->
+  s' = fold_left apply_ev (map (EvLine stk) (flat_map (fun seg => match content_line seg with Some l => [l] | None => [] end) segs)) s
+  /\ Forall (fun seg => N.of_nat (length seg) < max_scan_token) segs.
+Proof.
+  induction segs as [|seg r IH]; intros s stk s' H; cbn in H.
+  - inversion H; subst. split; [reflexivity|constructor].
+  - destruct (max_scan_token <=? N.of_nat (length seg)) eqn:E; [discriminate|].
+    cbn [flat_map]. destruct (content_line seg) as [l|].
+    + apply IH in H. destruct H as [-> HF]. split; [reflexivity|]. constructor; [lia|assumption].
+    + apply IH in H. destruct H as [-> HF]. split; [reflexivity|]. constructor; [lia|assumption].
+Qed.
+
+Lemma do_segments_short : forall segs s stk,
+  Forall (fun seg => N.of_nat (length seg) < max_scan_token) segs ->
+  do_segments s stk segs =
+  Some (fold_left apply_ev (map (EvLine stk) (flat_map (fun seg => match content_line seg with Some l => [l] | None => [] end) segs)) s).
+Proof.
+  induction segs as [|seg r IH]; intros s stk HF; cbn [do_segments flat_map map fold_left].
+  - reflexivity.
+  - inversion HF as [|? ? H1 H2]; subst.
+    destruct (max_scan_token <=? N.of_nat (length seg)) eqn:E; [lia|].
+    destruct (content_line seg) as [l|]; cbn [app map fold_left]; apply IH; assumption.
+Qed.
+
+Lemma conf_loop_ok_events : forall ts s stk t,
+  conf_loop ts s stk = Ok t -> t = fold_left apply_ev (events ts stk) s /\ short_lines ts.
+Proof.
+  induction ts as [|tok ts IH]; intros s stk t H.
+  - destruct stk; cbn in H; [discriminate|]. inversion H; subst. split; [reflexivity|]. intros ? ? [].
+  - destruct stk as [|top below]; [cbn in H; discriminate|].
+    destruct tok as [n|n|tx]; cbn [conf_loop] in H.
+    + cbn [events fold_left apply_ev].
+      destruct (lookup s (n :: top :: below)); apply IH in H; destruct H as [-> HS]; (split; [reflexivity|]);
+        intros t0 seg [E|Hin]; try discriminate; apply HS; assumption.
+    + destruct (bytes_eqb top n); [|discriminate]. apply IH in H. destruct H as [-> HS].
+      split; [reflexivity|]. intros t0 seg [E|Hin]; try discriminate; apply HS; assumption.
+    + destruct (do_segments s (top :: below) (split_lines tx)) as [s'|] eqn:D; [|discriminate].
+      apply do_segments_events in D. destruct D as [-> HF]. apply IH in H. destruct H as [-> HS].
+      split.
+      * cbn [events]. rewrite fold_left_app. reflexivity.
+      * intros t0 seg [E|Hin] Hseg; [inversion E; subst; rewrite Forall_forall in HF; apply HF; assumption | apply (HS t0); assumption].
+Qed.
+
+Lemma conf_loop_events : forall ts s names,
+  balanced_from names ts = true -> short_lines ts ->
+  conf_loop ts s (names ++ [root_name]) = Ok (fold_left apply_ev (events ts (names ++ [root_name])) s).
+Proof.
+  induction ts as [|tok ts IH]; intros s names Hb HS.
+  - destruct names; reflexivity.
+  - assert (HS' : short_lines ts) by (intros t0 seg Hin; apply HS; right; assumption).
+    destruct tok as [n|n|tx]; cbn in Hb.
+    + destruct names as [|top below]; cbn [app conf_loop events fold_left apply_ev].
+      * destruct (lookup s [n; root_name]); apply (IH _ [n]); assumption.
+      * destruct (lookup s (n :: top :: below ++ [root_name])); apply (IH _ (n :: top :: below)); assumption.
+    + destruct names as [|top below]; [discriminate|].
+      destruct (bytes_eqb top n) eqn:E; [|discriminate].
+      cbn [app conf_loop events tl]. rewrite E. apply IH; assumption.
+    + assert (HF : Forall (fun seg => N.of_nat (length seg) < max_scan_token) (split_lines tx)).
+      { apply Forall_forall. intros seg Hseg. apply (HS tx); [left; reflexivity|assumption]. }
+      destruct names as [|top below]; cbn [app conf_loop events]; rewrite do_segments_short by assumption;
+        rewrite fold_left_app; [apply (IH _ [])|apply (IH _ (top :: below))]; assumption.
+Qed.
+
+(* ------------------------------------------------------------------------------------------- *)
+(* the store as a finite map: how each operation changes lookups *)
+Definition with_line (l : bytes) (i : info) : info := {| ikind := ikind i; ivalue := ivalue i; ilines := l :: ilines i |}.
+
+Lemma lookup_add_line : forall s cur l X,
+  lookup (add_line s cur l) X = if key_eqb cur X then option_map (with_line l) (lookup s X) else lookup s X.
+Proof.
+  induction s as [|[k' i] r IH]; intros cur l X; cbn [add_line lookup].
+  - destruct (key_eqb cur X); reflexivity.
+  - destruct (key_eqb k' cur) eqn:E1.
+    + apply key_eqb_eq in E1. subst k'. cbn [lookup]. destruct (key_eqb cur X) eqn:E2; reflexivity.
+    + cbn [lookup]. destruct (key_eqb k' X) eqn:E2.
+      * apply key_eqb_eq in E2. subst k'. rewrite key_eqb_neq; [reflexivity|].
+        intros ->. rewrite key_eqb_refl in E1. discriminate.
+      * apply IH.
+Qed.
+
+Lemma map_fst_add_line : forall s cur l, map fst (add_line s cur l) = map fst s.
+Proof.
+  induction s as [|[k' i] r IH]; intros cur l; cbn [add_line]; [reflexivity|].
+  destruct (key_eqb k' cur); cbn [map fst]; [reflexivity|]. rewrite IH. reflexivity.
+Qed.
+
+Lemma lookup_filter (f : key -> bool) : forall s X,
+  lookup (filter (fun e => f (fst e)) s) X = if f X then lookup s X else None.
+Proof.
+  induction s as [|[k' i] r IH]; intros X; cbn [filter lookup fst].
+  - destruct (f X); reflexivity.
+  - destruct (f k') eqn:F; cbn [lookup]; destruct (key_eqb k' X) eqn:E.
+    + apply key_eqb_eq in E. subst. rewrite F. reflexivity.
+    + apply IH.
+    + apply key_eqb_eq in E. subst. rewrite IH, F. reflexivity.
+    + apply IH.
+Qed.
+
+Lemma lookup_remove_under s k X : lookup (remove_under s k) X = if is_suffix k X then None else lookup s X.
+Proof.
+  unfold remove_under. rewrite (lookup_filter (fun K => negb (is_suffix k K))). destruct (is_suffix k X); reflexivity.
+Qed.
+
+Lemma lookup_none_notin : forall s K, lookup s K = None -> ~ In K (map fst s).
+Proof.
+  induction s as [|[k' i] r IH]; intros K H; cbn in *; [tauto|].
+  destruct (key_eqb k' K) eqn:E; [discriminate|]. intros [->|Hin]; [rewrite key_eqb_refl in E; discriminate | exact (IH _ H Hin)].
+Qed.
+
+Lemma lookup_in : forall s K i, lookup s K = Some i -> In (K, i) s.
+Proof.
+  induction s as [|[k' i'] r IH]; intros K i H; cbn in *; [discriminate|].
+  destruct (key_eqb k' K) eqn:E; [apply key_eqb_eq in E; inversion H; subst; left; reflexivity | right; apply IH; assumption].
+Qed.
+
+Lemma in_lookup : forall s K i, NoDup (map fst s) -> In (K, i) s -> lookup s K = Some i.
+Proof.
+  induction s as [|[k' i'] r IH]; intros K i ND Hin; cbn in *; [contradiction|].
+  inversion ND as [|? ? Hn ND']; subst. destruct Hin as [E|Hin].
+  - inversion E; subst. rewrite key_eqb_refl. reflexivity.
+  - destruct (key_eqb k' K) eqn:E; [|apply IH; assumption].
+    apply key_eqb_eq in E. subst. exfalso. apply Hn. apply (in_map fst) in Hin. exact Hin.
+Qed.
+
+(* suffixes *)
+Lemma skipn_app_length {A} (a b : list A) : skipn (length a) (a ++ b) = b.
+Proof. induction a; cbn; auto. Qed.
+
+Lemma is_suffix_iff a K : is_suffix a K = true <-> exists pre, K = pre ++ a.
+Proof.
+  unfold is_suffix. split.
+  - intros H. apply andb_true_iff in H. destruct H as [_ H]. apply key_eqb_eq in H.
+    exists (firstn (length K - length a) K).
+    transitivity (firstn (length K - length a) K ++ skipn (length K - length a) K); [symmetry; apply firstn_skipn | f_equal; exact H].
+  - intros [pre ->]. apply andb_true_iff. split.
+    + rewrite app_length. apply Nat.leb_le. lia.
+    + apply key_eqb_eq. rewrite app_length. replace (length pre + length a - length a)%nat with (length pre) by lia.
+      apply skipn_app_length.
+Qed.
+Lemma is_suffix_refl a : is_suffix a a = true.
+Proof. apply is_suffix_iff. exists []. reflexivity. Qed.
+Lemma is_suffix_cons a n K : is_suffix a (n :: K) = true -> a = n :: K \/ is_suffix a K = true.
+Proof.
+  intros H. apply is_suffix_iff in H. destruct H as [[|m pre] E]; cbn in E.
+  - left. congruence.
+  - right. inversion E; subst. apply is_suffix_iff. exists pre. reflexivity.
+Qed.
+
+(* ------------------------------------------------------------------------------------------- *)
+(* reading the event list *)
+Lemma opens_app a b : opens (a ++ b) = opens a ++ opens b.
+Proof. unfold opens. apply flat_map_app. Qed.
+Lemma lines_of_app a b K : lines_of (a ++ b) K = lines_of a K ++ lines_of b K.
+Proof. unfold lines_of. apply flat_map_app. Qed.
+Lemma assigns_app a b K k : assigns (a ++ b) K k = assigns a K k ++ assigns b K k.
+Proof. unfold assigns. rewrite lines_of_app, filter_app, map_app. reflexivity. Qed.
+Lemma live_app_l a b K : live a K -> live (a ++ b) K.
+Proof. intros [H|H]; [left; assumption|right; rewrite opens_app; apply in_or_app; left; assumption]. Qed.
+
+Lemma lines_of_in : forall evs K l, In l (lines_of evs K) -> In (EvLine K l) evs.
+Proof.
+  induction evs as [|e r IH]; intros K l H; cbn in H; [contradiction|].
+  apply in_app_or in H. destruct H as [H|H]; [|right; apply IH; assumption].
+  destruct e as [k|k l']; [contradiction|]. destruct (key_eqb k K) eqn:E; [|contradiction].
+  apply key_eqb_eq in E. destruct H as [->|[]]. subst. left. reflexivity.
+Qed.
+Lemma assigns_in evs K k : assigns evs K k <> [] -> exists l, In (EvLine K l) evs /\ key_of_line l = k.
+Proof.
+  unfold assigns. intros H.
+  destruct (filter (fun l => bytes_eqb (key_of_line l) k) (lines_of evs K)) as [|l r] eqn:E; [contradiction|].
+  assert (Hin : In l (filter (fun l => bytes_eqb (key_of_line l) k) (lines_of evs K))) by (rewrite E; left; reflexivity).
+  apply filter_In in Hin. destruct Hin as [Hin Hk]. apply bytes_eqb_eq in Hk. exists l. split; [apply lines_of_in; assumption|assumption].
+Qed.
+
+Lemma ev_wf_app : forall a o b, ev_wf o (a ++ b) <-> ev_wf o a /\ ev_wf (rev (opens a) ++ o) b.
+Proof.
+  induction a as [|e a IH]; intros o b; cbn [app].
+  - cbn. tauto.
+  - destruct e as [K|K l]; cbn [ev_wf].
+    + rewrite IH. replace (rev (opens (EvOpen K :: a)) ++ o) with (rev (opens a) ++ K :: o); [tauto|].
+      change (opens (EvOpen K :: a)) with (K :: opens a). cbn [rev]. rewrite <- app_assoc. reflexivity.
+    + rewrite IH. change (opens (EvLine K l :: a)) with (opens a). tauto.
+Qed.
+
+Lemma in_opened a K : In K (rev (opens a) ++ [[root_name]]) <-> live a K.
+Proof.
+  unfold live. rewrite in_app_iff, <- in_rev. cbn. split; [intros [H|[H|[]]]; auto | intros [H|H]; auto].
+Qed.
+
+Lemma ev_wf_line_live : forall evs o K l, ev_wf o evs -> In (EvLine K l) evs -> In K o \/ In K (opens evs).
+Proof.
+  induction evs as [|e r IH]; intros o K l W Hin; [contradiction|].
+  destruct e as [K'|K' l']; cbn [ev_wf] in W; destruct W as [W1 W2]; destruct Hin as [E|Hin]; try discriminate.
+  - destruct (IH _ _ _ W2 Hin) as [[->|H]|H]; [right; left; reflexivity | left; assumption | right; right; assumption].
+  - inversion E; subst. left. assumption.
+  - apply (IH _ _ _ W2 Hin).
+Qed.
+
+Lemma ev_wf_open_parent : forall evs o K, ev_wf o evs -> In K (opens evs) ->
+  exists n K0, K = n :: K0 /\ (In K0 o \/ In K0 (opens evs)).
+Proof.
+  induction evs as [|e r IH]; intros o K W Hin; [contradiction|].
+  destruct e as [K'|K' l']; cbn [ev_wf] in W; destruct W as [W1 W2].
+  - change (opens (EvOpen K' :: r)) with (K' :: opens r) in *. destruct Hin as [->|Hin].
+    + destruct W1 as (n & K0 & -> & H0). exists n, K0. split; [reflexivity|left; assumption].
+    + destruct (IH _ _ W2 Hin) as (n & K0 & -> & [[->|H]|H]); exists n, K0; (split; [reflexivity|]).
+      * right. left. reflexivity.
+      * left. assumption.
+      * right. right. assumption.
+  - change (opens (EvLine K' l' :: r)) with (opens r) in *. apply (IH _ _ W2 Hin).
+Qed.
+
+(* every non-empty suffix of a live domain path is a live domain path *)
+Lemma live_suffix evs : ev_wf [[root_name]] evs -> forall pre X, X <> [] -> live evs (pre ++ X) -> live evs X.
+Proof.
+  intros W. induction pre as [|n pre IH]; intros X HX HL; [exact HL|].
+  apply IH; [assumption|]. cbn [app] in HL. destruct HL as [E|Hin].
+  - inversion E as [[E1 E2]]. destruct pre; destruct X; cbn in E2; try discriminate. contradiction.
+  - destruct (ev_wf_open_parent _ _ _ W Hin) as (n' & K0 & E & H). injection E as _ E2. rewrite E2.
+    destruct H as [[H|[]]|H]; [left; symmetry; exact H | right; exact H].
+Qed.
+
+(* ------------------------------------------------------------------------------------------- *)
+(* the store built from the events represents them *)
+Lemma run_events_snoc a e : run_events (a ++ [e]) = apply_ev (run_events a) e.
+Proof. unfold run_events. rewrite fold_left_app. reflexivity. Qed.
+
+Lemma no_clobber_prefix a b : no_clobber (a ++ b) -> no_clobber a.
+Proof.
+  intros H K l Hin Hk HL. apply (H K l); [apply in_or_app; left; assumption | assumption | apply live_app_l; assumption].
+Qed.
+
+Lemma represents_nil : represents init_store [].
+Proof.
+  constructor.
+  - intros K [->|[]]. exists new_node. repeat split.
+  - intros K k _ H. exfalso. apply H. reflexivity.
+  - intros X i H. unfold init_store in H. cbn [lookup] in H. destruct (key_eqb [root_name] X) eqn:E; [|discriminate].
+    apply key_eqb_eq in E. left. left. symmetry. assumption.
+  - cbn. constructor; [intros []|constructor].
+Qed.
+
+Lemma live_snoc_open a K0 X : live (a ++ [EvOpen K0]) X <-> live a X \/ X = K0.
+Proof.
+  unfold live. rewrite opens_app, in_app_iff. cbn. split.
+  - intros [H|[H|[H|[]]]]; auto.
+  - intros [[H|H]|H]; auto.
+Qed.
+Lemma live_snoc_line a K l X : live (a ++ [EvLine K l]) X <-> live a X.
+Proof. unfold live. rewrite opens_app. cbn. rewrite app_nil_r. tauto. Qed.
+
+Lemma represents_open a K0 :
+  ev_wf [[root_name]] (a ++ [EvOpen K0]) -> no_clobber (a ++ [EvOpen K0]) ->
+  represents (run_events a) a -> represents (apply_ev (run_events a) (EvOpen K0)) (a ++ [EvOpen K0]).
+Proof.
+  intros W NC R. set (s' := run_events a) in *.
+  apply ev_wf_app in W. destruct W as [Wa _].
+  assert (FL : forall X, lines_of (a ++ [EvOpen K0]) X = lines_of a X) by (intros; rewrite lines_of_app; cbn; apply app_nil_r).
+  assert (FA : forall X k, assigns (a ++ [EvOpen K0]) X k = assigns a X k) by (intros; unfold assigns; rewrite FL; reflexivity).
+  assert (C : forall i0, lookup s' K0 = Some i0 -> live a K0).
+  { intros i0 L. destruct (rep_only _ _ R _ _ L) as [H|(K' & k & -> & Hk & Ha)]; [assumption|].
+    exfalso. destruct (assigns_in _ _ _ Ha) as (l & Hin & Hl).
+    apply (NC K' l); [apply in_or_app; left; assumption | rewrite Hl; assumption |].
+    rewrite Hl. apply live_snoc_open. right. reflexivity. }
+  assert (D : lookup s' K0 = None -> lines_of a K0 = []).
+  { intros L. destruct (lines_of a K0) as [|l r] eqn:E; [reflexivity|]. exfalso.
+    assert (Hin : In (EvLine K0 l) a) by (apply lines_of_in; rewrite E; left; reflexivity).
+    assert (HL : live a K0).
+    { destruct (ev_wf_line_live _ _ _ _ Wa Hin) as [[H|[]]|H]; [left; symmetry; assumption|right; assumption]. }
+    destruct (rep_domain _ _ R _ HL) as (i & Li & _). rewrite Li in L. discriminate. }
+  cbn [apply_ev]. destruct (lookup s' K0) as [i0|] eqn:L.
+  - (* the domain exists already *)
+    constructor.
+    + intros X HX. rewrite FL. apply live_snoc_open in HX. destruct HX as [HX| ->]; [|pose proof (C i0 eq_refl) as HX]; apply (rep_domain _ _ R _ HX).
+    + intros K k Hk Ha. rewrite FA in *. apply (rep_key _ _ R); assumption.
+    + intros X i Hi. destruct (rep_only _ _ R _ _ Hi) as [H|(K' & k & E & Hk & Ha)].
+      * left. apply live_app_l. assumption.
+      * right. exists K', k. rewrite FA. auto.
+    + apply (rep_nodup _ _ R).
+  - (* a new, empty domain *)
+    constructor.
+    + intros X HX. rewrite FL. cbn [lookup]. destruct (key_eqb K0 X) eqn:E.
+      * apply key_eqb_eq in E. subst X. exists new_node. rewrite (D eq_refl). repeat split.
+      * apply live_snoc_open in HX. destruct HX as [HX| ->]; [apply (rep_domain _ _ R _ HX) | rewrite key_eqb_refl in E; discriminate].
+    + intros K k Hk Ha. rewrite FA in *. cbn [lookup]. destruct (key_eqb K0 (k :: K)) eqn:E.
+      * apply key_eqb_eq in E. subst K0. rewrite (rep_key _ _ R K k Hk Ha) in L. discriminate.
+      * apply (rep_key _ _ R); assumption.
+    + intros X i Hi. cbn [lookup] in Hi. destruct (key_eqb K0 X) eqn:E.
+      * apply key_eqb_eq in E. subst X. left. apply live_snoc_open. right. reflexivity.
+      * destruct (rep_only _ _ R _ _ Hi) as [H|(K' & k & E' & Hk & Ha)].
+        -- left. apply live_app_l. assumption.
+        -- right. exists K', k. rewrite FA. auto.
+    + cbn [map fst]. constructor; [apply lookup_none_notin; assumption | apply (rep_nodup _ _ R)].
+Qed.
+
+Lemma lookup_do_line s K1 l1 X :
+  lookup (do_line s K1 l1) X =
+    let s1v := if key_eqb K1 X then option_map (with_line l1) (lookup s X) else lookup s X in
+    match key_of_line l1 with
+    | [] => s1v
+    | k1 => if key_eqb (k1 :: K1) X then Some (new_leaf (value_of_line l1))
+            else if is_suffix (k1 :: K1) X then None else s1v
+    end.
+Proof.
+  unfold do_line, key_of_line, value_of_line. destruct (line_kv l1) as [k v]. cbn [fst snd].
+  destruct k as [|c r]; [apply lookup_add_line|].
+  cbn [lookup]. unfold key, bytes in *. destruct (key_eqb ((c :: r) :: K1) X); [reflexivity|].
+  rewrite lookup_remove_under. destruct (is_suffix ((c :: r) :: K1) X); [reflexivity|apply lookup_add_line].
+Qed.
+
+Lemma NoDup_map_filter {A B} (g : A -> B) (f : A -> bool) : forall l, NoDup (map g l) -> NoDup (map g (filter f l)).
+Proof.
+  induction l as [|x l IH]; intros ND; cbn in *; [constructor|].
+  inversion ND as [|? ? Hn ND']; subst. destruct (f x); cbn; [|apply IH; assumption].
+  constructor; [|apply IH; assumption]. intros Hin. apply Hn. apply in_map_iff in Hin. destruct Hin as (y & E & Hy).
+  apply filter_In in Hy. apply in_map_iff. exists y. tauto.
+Qed.
+
+Lemma represents_line a K1 l1 :
+  ev_wf [[root_name]] (a ++ [EvLine K1 l1]) -> no_clobber (a ++ [EvLine K1 l1]) ->
+  represents (run_events a) a -> represents (apply_ev (run_events a) (EvLine K1 l1)) (a ++ [EvLine K1 l1]).
+Proof.
+  intros W NC R. set (s' := run_events a) in *.
+  remember (key_of_line l1) as k1 eqn:Hk1. remember (value_of_line l1) as v1 eqn:Hv1.
+  apply ev_wf_app in W. destruct W as [Wa [W1 _]]. apply in_opened in W1.
+  assert (NC1 : k1 <> [] -> ~ live a (k1 :: K1)).
+  { intros Hk HL. apply (NC K1 l1); [apply in_or_app; right; left; reflexivity | rewrite <- Hk1; exact Hk | rewrite <- Hk1; apply live_snoc_line; exact HL]. }
+  assert (OUT : forall X, live a X -> k1 <> [] -> key_eqb (k1 :: K1) X = false /\ is_suffix (k1 :: K1) X = false).
+  { intros X HX Hk. split.
+    - destruct (key_eqb (k1 :: K1) X) eqn:E; [|reflexivity]. apply key_eqb_eq in E. subst X. exfalso. exact (NC1 Hk HX).
+    - destruct (is_suffix (k1 :: K1) X) eqn:E; [|reflexivity]. apply is_suffix_iff in E. destruct E as [pre ->].
+      exfalso. apply (NC1 Hk). apply (live_suffix _ Wa pre); [discriminate|assumption]. }
+  assert (FL : forall X, lines_of (a ++ [EvLine K1 l1]) X = lines_of a X ++ (if key_eqb K1 X then [l1] else [])).
+  { intros. rewrite lines_of_app. cbn. rewrite app_nil_r. reflexivity. }
+  assert (FA : forall X k, assigns (a ++ [EvLine K1 l1]) X k =
+                           assigns a X k ++ (if key_eqb K1 X then if bytes_eqb k1 k then [v1] else [] else [])).
+  { intros. unfold assigns. rewrite FL, filter_app, map_app. f_equal.
+    destruct (key_eqb K1 X); [|reflexivity]. cbn [filter]. rewrite <- Hk1. destruct (bytes_eqb k1 k); [cbn; rewrite <- Hv1|]; reflexivity. }
+  assert (MONO : forall X k, assigns a X k <> [] -> assigns (a ++ [EvLine K1 l1]) X k <> []).
+  { intros X k H E. rewrite FA in E. apply app_eq_nil in E. destruct E. contradiction. }
+  assert (LK : forall X, lookup (do_line s' K1 l1) X =
+    let s1v := if key_eqb K1 X then option_map (with_line l1) (lookup s' X) else lookup s' X in
+    match k1 with
+    | [] => s1v
+    | _ => if key_eqb (k1 :: K1) X then Some (new_leaf v1) else if is_suffix (k1 :: K1) X then None else s1v
+    end).
+  { intros X. rewrite lookup_do_line, <- Hk1, <- Hv1. destruct k1; reflexivity. }
+  cbn [apply_ev]. constructor.
+  - (* domains *)
+    intros X HX. apply live_snoc_line in HX. destruct (rep_domain _ _ R _ HX) as (i & Li & Ki & Hl).
+    assert (E : lookup (do_line s' K1 l1) X = if key_eqb K1 X then Some (with_line l1 i) else Some i).
+    { rewrite LK. cbv zeta. rewrite Li. destruct k1 as [|c r]; [destruct (key_eqb K1 X); reflexivity|].
+      destruct (OUT X HX) as [O1 O2]; [discriminate|]. rewrite O1, O2. destruct (key_eqb K1 X); reflexivity. }
+    rewrite E, FL. destruct (key_eqb K1 X).
+    + exists (with_line l1 i). repeat split; [assumption|]. cbn [with_line ilines]. rewrite rev_app_distr, Hl. reflexivity.
+    + exists i. rewrite app_nil_r. auto.
+  - (* keys *)
+    intros K k Hk Ha. rewrite LK. cbv zeta.
+    destruct (key_eqb K1 K && bytes_eqb k1 k) eqn:Both.
+    + apply andb_true_iff in Both. destruct Both as [E1 E2]. apply key_eqb_eq in E1. apply bytes_eqb_eq in E2. subst K. subst k.
+      rewrite FA, (key_eqb_refl K1), (bytes_eqb_refl k1), last_last.
+      destruct k1 as [|c r]; [contradiction|]. rewrite key_eqb_refl. reflexivity.
+    + assert (E0 : assigns (a ++ [EvLine K1 l1]) K k = assigns a K k).
+      { rewrite FA. destruct (key_eqb K1 K); [|apply app_nil_r]. cbn [andb] in Both. rewrite Both. apply app_nil_r. }
+      rewrite E0 in *. pose proof (rep_key _ _ R K k Hk Ha) as Lk.
+      destruct (assigns_in _ _ _ Ha) as (l & Hin & Hlk).
+      assert (HK : live a K).
+      { destruct (ev_wf_line_live _ _ _ _ Wa Hin) as [[H|[]]|H]; [left; symmetry; assumption|right; assumption]. }
+      assert (NCk : ~ live a (k :: K)).
+      { intros HL. apply (NC K l); [apply in_or_app; left; assumption | rewrite Hlk; assumption | rewrite Hlk; apply live_snoc_line; assumption]. }
+      assert (E1 : key_eqb K1 (k :: K) = false).
+      { destruct (key_eqb K1 (k :: K)) eqn:E; [|reflexivity]. apply key_eqb_eq in E. subst K1. contradiction. }
+      rewrite E1. destruct k1 as [|c r]; [exact Lk|]. unfold key, bytes in *.
+      destruct (key_eqb ((c :: r) :: K1) (k :: K)) eqn:E2.
+      * apply key_eqb_eq in E2. injection E2 as E3 E4. subst K1. rewrite key_eqb_refl in Both. cbn [andb] in Both.
+        rewrite E3, bytes_eqb_refl in Both. discriminate.
+      * destruct (is_suffix ((c :: r) :: K1) (k :: K)) eqn:E3; [|exact Lk]. exfalso.
+        apply is_suffix_cons in E3. destruct E3 as [E3|E3].
+        -- rewrite E3, key_eqb_refl in E2. discriminate.
+        -- destruct (OUT K HK) as [_ O2]; [discriminate|]. rewrite O2 in E3. discriminate.
+  - (* nothing else *)
+    intros X i Hi. rewrite LK in Hi. cbv zeta in Hi.
+    assert (OLD : forall i', (if key_eqb K1 X then option_map (with_line l1) (lookup s' X) else lookup s' X) = Some i' ->
+                  live (a ++ [EvLine K1 l1]) X \/ exists K k, X = k :: K /\ k <> [] /\ assigns (a ++ [EvLine K1 l1]) K k <> []).
+    { intros i' H. assert (exists i0, lookup s' X = Some i0) as [i0 L0].
+      { destruct (key_eqb K1 X); destruct (lookup s' X) as [i0|]; try discriminate; exists i0; reflexivity. }
+      destruct (rep_only _ _ R _ _ L0) as [HL|(K' & k & E & Hk & Ha)].
+      - left. apply live_snoc_line. assumption.
+      - right. exists K', k. auto. }
+    destruct k1 as [|c r]; [apply (OLD i); assumption|]. unfold key, bytes in *.
+    destruct (key_eqb ((c :: r) :: K1) X) eqn:E2.
+    + apply key_eqb_eq in E2. subst X. right. exists K1, (c :: r). repeat split; [discriminate|].
+      rewrite FA, key_eqb_refl, bytes_eqb_refl. intros E. apply app_eq_nil in E. destruct E. discriminate.
+    + destruct (is_suffix ((c :: r) :: K1) X); [discriminate|]. apply (OLD i); assumption.
+  - (* no duplicates *)
+    pose proof (rep_nodup _ _ R) as ND. unfold do_line. destruct (line_kv l1) as [k v].
+    destruct k as [|c r]; [rewrite map_fst_add_line; assumption|].
+    cbn [map fst]. constructor.
+    + apply lookup_none_notin. rewrite lookup_remove_under, is_suffix_refl. reflexivity.
+    + unfold remove_under. apply NoDup_map_filter. rewrite map_fst_add_line. assumption.
+Qed.
+
+Theorem run_events_represents : forall evs,
+  ev_wf [[root_name]] evs -> no_clobber evs -> represents (run_events evs) evs.
+Proof.
+  induction evs as [|e a IH] using rev_ind; intros W NC; [apply represents_nil|].
+  rewrite run_events_snoc.
+  assert (R : represents (run_events a) a).
+  { apply IH; [apply ev_wf_app in W; tauto | apply (no_clobber_prefix _ _ NC)]. }
+  destruct e as [K0|K1 l1]; [apply represents_open | apply represents_line]; assumption.
 Qed.
